@@ -678,11 +678,24 @@ def np_identity(ex, args, kw, st):
     return args[0]
 
 
+def content_token(v):
+    """Token of the contents of an array: its memory's identity, or -- for an unmodified copy --
+    the token of what it was copied from (id_() in contracts is about *which data* reaches a
+    callee; an unmodified copy carries the same data)."""
+    if isinstance(v, SArr) and v.store is not None:
+        return v.store.content_tok if getattr(v.store, 'content_tok', None) is not None \
+            else v.store.tok
+    if isinstance(v, SArr):
+        return getattr(v, '_copy_tok', None)
+    return None
+
+
 def np_copy(ex, args, kw, st):
     v = args[0]
     if isinstance(v, SArr):
         out = ex.new_array(v.shape, snap(v), v.kind, 'copy')
         out.store.finite = snap_finite(v)
+        out.store.content_tok = content_token(v)
         return out
     if isinstance(v, SSeq):
         return SSeq(v.length, v.fn, v.kind)
@@ -897,6 +910,15 @@ def count_term(ex, agg, st):
     if _mentions_bound([pv, size], own):
         raise Unsupported('COUNT reduction under a quantifier that is not skolemised')
     st.fact(z3.And(c >= 0, c <= size))
+    # exact value on tiny boxes (sound: it is the definition), which makes counter-models with
+    # shapes up to 3 x 3 faithful, hence replayable
+    if nd in (1, 2):
+        dims = [num_term(d) for d in agg.shape]
+        sizes = [(h,) for h in range(1, 4)] if nd == 1 else [(h, w) for h in range(1, 4) for w in range(1, 4)]
+        for sz in sizes:
+            cells = [tuple(p) for p in _it.product(*[range(k) for k in sz])]
+            total = z3.Sum([z3.If(to_bool(agg.pred(tuple(z3.IntVal(x) for x in p))), 1, 0) for p in cells])
+            st.fact(z3.Implies(z3.And(*[d == k for d, k in zip(dims, sz)]), c == total))
     st.fact(z3.Implies(c == 0, z3.ForAll(vs, z3.Implies(inb, z3.Not(pv)))))
     st.fact(z3.Implies(z3.ForAll(vs, z3.Implies(inb, z3.Not(pv))), c == 0))
     for other, oterm in st.count_aggs:
@@ -1387,9 +1409,10 @@ def cl_id(ex, args, kw, st):
     v = args[0]
     if v is None:
         return 0
-    if isinstance(v, SArr) and v.store is not None:
-        st.fact(v.store.tok >= 1)
-        return v.store.tok
+    if isinstance(v, SArr) and content_token(v) is not None:
+        t = content_token(v)
+        st.fact(t >= 1)
+        return t
     if isinstance(v, SArr):
         # a freshly computed array: some identity, nothing known about it (so it can never be
         # *proved* to be one of the caller's arrays)
@@ -1483,9 +1506,14 @@ def arr_method(ex, v, meth, args, kw, st):
             if kind == 'real':
                 out = SArr(v.shape, lambda idx, f=snap(v): real(f(idx)), 'real')
                 out.finite = snap_finite(v)       # a float copy keeps the non-finite elements
+                if v.kind in ('real', 'int'):
+                    out._copy_tok = content_token(v)      # same values
                 return out
             if kind == 'bool':
-                return SArr(v.shape, lambda idx, f=snap(v): to_bool(f(idx)), 'bool')
+                out = SArr(v.shape, lambda idx, f=snap(v): to_bool(f(idx)), 'bool')
+                if v.kind == 'bool':
+                    out._copy_tok = content_token(v)
+                return out
             if kind == 'int':
                 # C-style truncation toward zero of every element
                 return SArr(v.shape, lambda idx, f=snap(v): p_int(ex, [f(idx)], {}, st), 'int')
